@@ -114,3 +114,32 @@ package socks5
 //@   property C12
 //@ struct callers runUDPAssociateDatagramLoop = {Server.handleAssociateDatagram}
 //@   property C12
+
+//@ // The relay loops themselves (function literals run as goroutines; verified one by one,
+//@ // the captured variables being arbitrary): a datagram from the client is handed to
+//@ // WriteToUDP only if no filter is installed or the filter was asked about exactly this
+//@ // destination, after it was resolved, and answered yes (C12).
+//@ func runUDPAssociateLoop__closure1()
+//@   property C12
+//@   mode int
+//@   partial
+//@   posts_only
+//@   noframe
+//@   may_panic
+//@   assert_call UDPConn.WriteToUDP: allow == nil || (ghost(fvres) == 1 && ghost(fvarg) == mathint(arg1) && mathint(arg1) == mathint(dstAddr))
+//@   loop 1:
+//@     invariant true
+//@
+//@ func runUDPAssociateDatagramLoop(udpConn *net.UDPConn, ctrlConn net.Conn, resolver apicommon.DNSResolver, allow udpDestinationFilter) (err error)
+//@   property C12
+//@   mode int
+//@   partial
+//@   posts_only
+//@   noframe
+//@   may_panic
+//@   assert_call UDPConn.WriteToUDP: mathint(arg1) == mathint(clientAddr) || allow == nil || (ghost(fvres) == 1 && ghost(fvarg) == mathint(arg1))
+//@   loop 1:
+//@     invariant true
+//@
+//@ func udpAddrToHeader(addr *net.UDPAddr) (h []byte)
+//@   trusted serialises through bytes.Buffer/io.Writer (outside the subset); result unconstrained here
